@@ -359,6 +359,16 @@ theorem C11_overshoot : Spec.OvershootAtMostLastStep := by
     unfold wire
     omega
 
+/-- non-vacuity: a concrete capped turn (three 100-byte batches, cap 150, 7-byte sentinel) satisfies the hypotheses; it
+runs two steps, hands out the token for position 2 and weighs 207 ≤ 150 + 100 + 7 -/
+example :
+    let sz : Item → Nat := fun | .data _ => 100 | .token _ => 7 | _ => 0
+    let rest : List Step := [⟨[], .emit ⟨1, 1, []⟩, []⟩, ⟨[], .emit ⟨2, 1, []⟩, []⟩, ⟨[], .emit ⟨3, 1, []⟩, []⟩]
+    rest ≠ [] ∧ (∀ p, sz (.token p) ≤ 7) ∧ ran (some 150) sz 0 rest = 2 ∧
+      turn (some 150) sz 0 0 rest = [.data ⟨1, 1, []⟩, .data ⟨2, 1, []⟩, .token 2] ∧
+      0 + bytes sz (turn (some 150) sz 0 0 rest) = 207 := by
+  refine ⟨by simp, fun _ => Nat.le_refl _, by decide, by decide, by decide⟩
+
 /-- the looser form quoted in the brief: body ≤ cap + preamble + last step + sentinel -/
 theorem C11_overshoot_loose (c : Nat) (sz : Item → Nat) (told pos : Nat) (rest : List Step) (sentinel : Nat)
     (hne : rest ≠ []) (hs : ∀ p, sz (.token p) ≤ sentinel) :
